@@ -2,7 +2,8 @@
    alone, whatever the other pool users do. *)
 From Coq Require Import List Arith Bool Lia.
 Import ListNotations.
-From C08 Require Import ModelPool.
+From VLib Require Import CaseLib.
+From C08 Require Import Model ModelGen ModelPool CaseDefs.
 
 Lemma drop_nth_in {A} : forall (l : list A) i x, In x (drop_nth i l) -> In x l.
 Proof.
@@ -29,12 +30,21 @@ Qed.
 Lemma drop_nth_map {A B} (f : A -> B) : forall l i, map f (drop_nth i l) = drop_nth i (map f l).
 Proof. induction l as [|a r IH]; intros [|i]; simpl; auto. f_equal. apply IH. Qed.
 
-Lemma take_spec : forall pick free next v fr nx,
-  take pick free next = (v, fr, nx) ->
+Lemma NoDup_app_one {A} : forall (l : list A) v, NoDup l -> ~ In v l -> NoDup (l ++ [v]).
+Proof.
+  induction l as [|a r IH]; intros v H N; simpl.
+  - constructor; auto.
+  - inversion H; subst. constructor.
+    + intro X. apply in_app_or in X. destruct X as [X|[X|[]]]; auto. subst. apply N. left. reflexivity.
+    + apply IH; auto. intro X. apply N. right. exact X.
+Qed.
+
+Lemma ptake_spec : forall pick free next v fr nx,
+  ptake pick free next = (v, fr, nx) ->
   (nth_error free pick = Some v /\ fr = drop_nth pick free /\ nx = next)
   \/ (v = next /\ fr = free /\ nx = S next).
 Proof.
-  unfold take. intros pick free next v fr nx H. destruct (nth_error free pick) eqn:E; inversion H; subst; auto.
+  unfold ptake. intros pick free next v fr nx H. destruct (nth_error free pick) eqn:E; inversion H; subst; auto.
 Qed.
 
 (* ------------------------------------------------------------------ the pool is well formed *)
@@ -50,12 +60,12 @@ Record wf (s : pstate) : Prop := {
 }.
 
 (* a buffer just taken from the pool is nobody's *)
-Lemma take_fresh : forall s pick v fr nx, wf s -> take pick (p_free s) (p_next s) = (v, fr, nx) ->
+Lemma ptake_fresh : forall s pick v fr nx, wf s -> ptake pick (p_free s) (p_next s) = (v, fr, nx) ->
   NoDup fr /\ (forall x, In x fr -> x < nx) /\ (forall x, In x fr -> In x (p_free s)) /\ p_next s <= nx
   /\ v < nx /\ ~ In v fr /\ ~ In v (bufs s)
   /\ (p_own s = true -> p_cur s <> Some v).
 Proof.
-  intros s pick v fr nx W T. apply take_spec in T. destruct T as [(N & -> & ->)|(-> & -> & ->)].
+  intros s pick v fr nx W T. apply ptake_spec in T. destruct T as [(N & -> & ->)|(-> & -> & ->)].
   - assert (I : In v (p_free s)) by (eapply nth_error_In; eauto).
     repeat split.
     + apply drop_nth_nodup, W.
@@ -88,7 +98,7 @@ Qed.
 Definition owns_z (s : pstate) : Prop :=
   p_own s = true /\ exists v, p_cur s = Some v /\ p_heap s v = CZ (p_k s).
 
-Definition phase_ok (done : list blk) (s : pstate) : Prop :=
+Definition phase_ok (done : list pblk) (s : pstate) : Prop :=
   match p_rest s with
   | [] => p_ph s = PStart /\ p_own s = false /\ p_out s = expect_from 0 done
   | b :: _ =>
@@ -101,7 +111,7 @@ Definition phase_ok (done : list blk) (s : pstate) : Prop :=
       end
   end.
 
-Definition Inv (blocks : list blk) (s : pstate) : Prop :=
+Definition Inv (blocks : list pblk) (s : pstate) : Prop :=
   wf s /\ exists done, blocks = done ++ p_rest s /\ p_k s = length done /\ phase_ok done s.
 
 Lemma inv_init : forall blocks, Inv blocks (pinit blocks).
@@ -111,10 +121,10 @@ Proof.
   - exists []. simpl. repeat split; auto. unfold phase_ok. simpl. destruct blocks; auto.
 Qed.
 
-Lemma upd_same : forall h v c, upd h v c v = c.
-Proof. intros. unfold upd. rewrite Nat.eqb_refl. reflexivity. Qed.
-Lemma upd_other : forall h v c x, x <> v -> upd h v c x = h x.
-Proof. intros. unfold upd. destruct (Nat.eqb_spec x v); congruence. Qed.
+Lemma hupd_same : forall h v c, hupd h v c v = c.
+Proof. intros. unfold hupd. rewrite Nat.eqb_refl. reflexivity. Qed.
+Lemma hupd_other : forall h v c x, x <> v -> hupd h v c x = h x.
+Proof. intros. unfold hupd. destruct (Nat.eqb_spec x v); congruence. Qed.
 
 Ltac inv_wf W := destruct W as [W1 W2 W3 W4 W5 W6].
 
@@ -122,31 +132,31 @@ Ltac inv_wf W := destruct W as [W1 W2 W3 W4 W5 W6].
 Lemma inv_seal : forall blocks pick s, Inv blocks s -> Inv blocks (seal_step false pick s).
 Proof.
   intros blocks pick s (W & done & B & K & P).
-  unfold seal_step. destruct (p_rest s) as [|b r] eqn:R; [split; [exact W|exists done; rewrite R; unfold phase_ok; rewrite R; auto]|].
-  unfold phase_ok in P. rewrite R in P.
+  unfold seal_step. unfold phase_ok in P.
+  destruct (p_rest s) as [|b r] eqn:R; [split; [exact W|exists done; unfold phase_ok; rewrite R; auto]|].
   destruct (p_ph s) eqn:PH.
   - (* PStart *) destruct P as (O & OUT). destruct (b_compress b) eqn:CB.
-    + destruct (take pick (p_free s) (p_next s)) as [[v fr] nx] eqn:T.
-      destruct (take_fresh s pick v fr nx W T) as (F1 & F2 & F3 & F4 & F5 & F6 & F7 & _).
+    + destruct (ptake pick (p_free s) (p_next s)) as [[v fr] nx] eqn:T.
+      destruct (ptake_fresh s pick v fr nx W T) as (F1 & F2 & F3 & F4 & F5 & F6 & F7 & _).
       split.
       * inv_wf W. constructor; simpl; auto.
         -- intros x X. apply W4 in X. lia.
         -- intros _. exists v. auto.
-      * exists done. simpl. repeat split; auto. unfold phase_ok. simpl. rewrite R. auto.
+      * exists done. simpl. split; [auto|]. split; [auto|]. unfold phase_ok. simpl. rewrite ?R. auto.
     + split.
       * inv_wf W. constructor; simpl; auto.
-      * exists done. simpl. repeat split; auto. unfold phase_ok. simpl. rewrite R, CB. auto.
+      * exists done. simpl. split; [auto|]. split; [auto|]. unfold phase_ok. simpl. rewrite ?R, ?CB. auto.
   - (* PAcqd *) destruct P as (CB & O & OUT). split.
     + inv_wf W. constructor; simpl; auto.
-    + exists done. simpl. repeat split; auto. unfold phase_ok. simpl. rewrite R.
-      destruct (wf_own s W O) as (v & C & _). repeat split; auto. exists v. rewrite C. split; auto. apply upd_same.
+    + exists done. simpl. split; [auto|]. split; [auto|]. unfold phase_ok. simpl. rewrite ?R.
+      destruct (wf_own s W O) as (v & C & _). repeat split; auto. exists v. rewrite C. split; auto. apply hupd_same.
   - (* PCompd *) destruct P as (CB & OZ & OUT). simpl. split.
     + inv_wf W. constructor; simpl; auto.
-    + exists done. simpl. repeat split; auto. unfold phase_ok. simpl. rewrite R, CB. auto.
+    + exists done. simpl. split; [auto|]. split; [auto|]. unfold phase_ok. simpl. rewrite ?R, ?CB. auto.
   - (* PSought: Write *) destruct P as (OUT & X). destruct (b_compress b) eqn:CB; simpl.
     + split.
       * inv_wf W. constructor; simpl; auto.
-      * exists done. simpl. repeat split; auto. unfold phase_ok. simpl. rewrite R.
+      * exists done. simpl. split; [auto|]. split; [auto|]. unfold phase_ok. simpl. rewrite ?R.
         destruct X as (O & v & C & H). repeat split; auto.
         rewrite expect_from_app, OUT. simpl. f_equal. unfold expect1. rewrite CB. simpl.
         destruct (b_shrinks b); [|rewrite K; auto]. unfold read_cur. rewrite C, H, K. reflexivity.
@@ -184,25 +194,24 @@ Qed.
 Lemma inv_user : forall blocks early e s, (forall pick, e <> ESeal pick) -> Inv blocks s -> Inv blocks (pstep early s e).
 Proof.
   intros blocks early e s NE (W & done & B & K & P). destruct e as [pick|u pick|j|j]; [exfalso; eapply NE; eauto| | |]; simpl.
-  - (* EAcq *) destruct (take pick (p_free s) (p_next s)) as [[v fr] nx] eqn:T.
-    destruct (take_fresh s pick v fr nx W T) as (F1 & F2 & F3 & F4 & F5 & F6 & F7 & F8).
+  - (* EAcq *) destruct (ptake pick (p_free s) (p_next s)) as [[v fr] nx] eqn:T.
+    destruct (ptake_fresh s pick v fr nx W T) as (F1 & F2 & F3 & F4 & F5 & F6 & F7 & F8).
     split.
     + inv_wf W. constructor; simpl; auto; unfold bufs; simpl; rewrite ?map_app; simpl.
       * apply NoDup_app_one; auto.
       * intros x X. apply in_app_or in X. destruct X as [X|[<-|[]]]; auto. apply W4 in X. lia.
       * intros x X Y. apply in_app_or in Y. destruct Y as [Y|[<-|[]]]; auto. apply F3 in X. eapply W5; eauto.
-      * intros O. destruct (W6 O) as (c & C & L & NF & NH). exists c. repeat split; auto; try lia.
-        -- intro X. apply NF. auto.
-        -- intro X. apply in_app_or in X. destruct X as [X|[<-|[]]]; auto. apply (F8 O). auto.
-    + exists done. simpl. repeat split; auto.
+      * intros O. destruct (W6 O) as (c & C & L & NF & NH). exists c. split; [auto|]. split; [lia|]. split; [intro X; apply NF, F3, X|].
+        intro X. apply in_app_or in X. destruct X as [X|[<-|[]]]; auto. apply (F8 O). auto.
+    + exists done. simpl. split; [auto|]. split; [auto|].
       eapply phase_ok_frame; [| |exact P]; [repeat split|]. intros Z. exact Z.
   - (* EFill *) destruct (nth_error (p_held s) j) as [[u v]|] eqn:N; [|split; auto; exists done; auto].
     assert (IV : In v (bufs s)). { unfold bufs. change v with (snd (u, v)). apply in_map. eapply nth_error_In; eauto. }
     split.
     + inv_wf W. constructor; simpl; auto.
-    + exists done. simpl. repeat split; auto.
+    + exists done. simpl. split; [auto|]. split; [auto|].
       eapply phase_ok_frame; [| |exact P]; [repeat split|]. intros (O & c & C & H). split; auto. exists c. split; auto.
-      simpl. rewrite upd_other; auto. intros ->. destruct (wf_own s W O) as (c' & C' & _ & _ & NH). rewrite C in C'. inversion C'; subst. auto.
+      simpl. rewrite hupd_other; auto. intros ->. destruct (wf_own s W O) as (c' & C' & _ & _ & NH). rewrite C in C'. inversion C'; subst. auto.
   - (* ERel *) destruct (nth_error (p_held s) j) as [[u v]|] eqn:N; [|split; auto; exists done; auto].
     assert (NV : nth_error (bufs s) j = Some v). { unfold bufs. rewrite nth_error_map, N. reflexivity. }
     assert (IV : In v (bufs s)) by (eapply nth_error_In; eauto).
@@ -218,7 +227,7 @@ Proof.
       * intros O. destruct (W6 O) as (c & C & L & NF & NH). exists c. repeat split; auto.
         -- intros [<-|X]; auto.
         -- intro X. apply NH. eapply drop_nth_in; eauto.
-    + exists done. simpl. repeat split; auto.
+    + exists done. simpl. split; [auto|]. split; [auto|].
       eapply phase_ok_frame; [| |exact P]; [repeat split|]. intros Z. exact Z.
 Qed.
 
@@ -236,6 +245,12 @@ Proof. induction sched as [|e l IH]; intros s I; simpl; auto. apply IH, inv_step
 
 Lemma firstn_app_exact {A} : forall (a b : list A), firstn (length a) (a ++ b) = a.
 Proof. intros. rewrite firstn_app, Nat.sub_diag, firstn_all. simpl. apply app_nil_r. Qed.
+
+Lemma firstn_app_snoc {A} : forall (a : list A) x r, a ++ [x] = firstn (length (a ++ [x])) (a ++ x :: r).
+Proof.
+  intros. replace (a ++ x :: r) with ((a ++ [x]) ++ r) by (rewrite <- app_assoc; reflexivity).
+  symmetry. apply firstn_app_exact.
+Qed.
 
 (* For EVERY interleaving of the sealer's steps with the steps of the other pool users (any number of
    users, any buffers handed out by the pool, any point of time): what the Write calls have put into
@@ -259,11 +274,7 @@ Proof.
     + destruct P as (_ & _ & OUT). rewrite OUT. symmetry. apply firstn_app_exact.
     + destruct P as (_ & _ & OUT). rewrite OUT. symmetry. apply firstn_app_exact.
     + destruct P as (OUT & _). rewrite OUT. symmetry. apply firstn_app_exact.
-    + destruct P as (_ & _ & OUT). rewrite OUT. rewrite expect_from_app. simpl.
-      rewrite <- app_assoc. simpl.
-      change (expect_from 0 done ++ expect1 (0 + length done) b :: expect_from (S (0 + length done)) r)
-        with (expect_from 0 done ++ [expect1 (0 + length done) b] ++ expect_from (S (0 + length done)) r).
-      rewrite app_assoc. symmetry. apply firstn_app_exact.
+    + destruct P as (_ & _ & OUT). rewrite OUT. rewrite expect_from_app. simpl. apply firstn_app_snoc.
 Qed.
 
 (* the sealer finishes: a schedule in which it gets [seal_steps blocks] steps (anywhere) ends with
@@ -281,7 +292,7 @@ Definition remaining (s : pstate) : nat :=
 Lemma remaining_user : forall early e s, is_seal e = false -> remaining (pstep early s e) = remaining s.
 Proof.
   intros early e s H. destruct e as [pick|u pick|j|j]; try discriminate; simpl.
-  - destruct (take pick (p_free s) (p_next s)) as [[v fr] nx]. reflexivity.
+  - destruct (ptake pick (p_free s) (p_next s)) as [[v fr] nx]. reflexivity.
   - destruct (nth_error (p_held s) j) as [[u v]|]; reflexivity.
   - destruct (nth_error (p_held s) j) as [[u v]|]; reflexivity.
 Qed.
@@ -289,17 +300,17 @@ Qed.
 Lemma remaining_seal : forall blocks pick s, Inv blocks s -> remaining (seal_step false pick s) = pred (remaining s).
 Proof.
   intros blocks pick s (W & done & B & K & P). unfold remaining, seal_step, phase_ok in *.
-  destruct (p_rest s) as [|b r] eqn:R; simpl; [rewrite R; reflexivity|].
+  destruct (p_rest s) as [|b r] eqn:R; simpl; [rewrite ?R; reflexivity|].
   destruct (p_ph s) eqn:PH.
   - destruct (b_compress b) eqn:CB.
-    + destruct (take pick (p_free s) (p_next s)) as [[v fr] nx]. simpl. rewrite R, CB. lia.
-    + simpl. rewrite R, CB. lia.
-  - destruct P as (CB & _). simpl. rewrite R, CB. lia.
-  - destruct P as (CB & _). simpl. rewrite R, CB. lia.
+    + destruct (ptake pick (p_free s) (p_next s)) as [[v fr] nx]. simpl. rewrite ?R, ?CB. lia.
+    + simpl. rewrite ?R, ?CB. lia.
+  - destruct P as (CB & _). simpl. rewrite ?R, ?CB. lia.
+  - destruct P as (CB & _). simpl. rewrite ?R, ?CB. lia.
   - destruct (b_compress b) eqn:CB; simpl.
-    + rewrite R, CB. lia.
+    + rewrite ?R, ?CB. lia.
     + destruct r as [|b' r']; simpl; [reflexivity|]. destruct (b_compress b'); lia.
-  - destruct P as (CB & _). simpl. rewrite CB. destruct r as [|b' r']; simpl; [reflexivity|]. destruct (b_compress b'); lia.
+  - destruct P as (CB & _). simpl. rewrite ?CB. destruct r as [|b' r']; simpl; [reflexivity|]. destruct (b_compress b'); lia.
 Qed.
 
 Lemma run_remaining : forall blocks sched s, Inv blocks s ->
@@ -342,7 +353,7 @@ Qed.
 (* The seeded change C08-m12 (Release right after compression): two goroutines suffice.  The sealer
    acquires, compresses, releases; a pool user acquires (the pool hands out the buffer just released),
    writes its own bytes, and the sealer seeks and writes: the index holds the user's bytes. *)
-Definition early_witness_blocks : list blk := [mkBlk true true].
+Definition early_witness_blocks : list pblk := [mkPB true true].
 Definition early_witness_sched : list pev := [ESeal 0; ESeal 0; ESeal 0; EAcq 7 0; EFill 0; ESeal 0; ESeal 0].
 
 Lemma release_before_write_refuted :
@@ -353,4 +364,20 @@ Lemma release_before_write_refuted :
     /\ p_out (write_blocks blocks sched) = firstn (length (p_out (write_blocks blocks sched))) (expect_from 0 blocks).
 Proof.
   exists early_witness_blocks, early_witness_sched. vm_compute. repeat split; auto. discriminate.
+Qed.
+
+(* ------------------------------------------------------------------ the spec checker holds on the model *)
+Lemma pcontent_eqb_refl : forall a, pcontent_eqb a a = true.
+Proof. destruct a; simpl; auto; apply Nat.eqb_refl. Qed.
+
+Lemma pcontent_list_eqb_refl : forall l, list_eqb pcontent_eqb l l = true.
+Proof. induction l as [|a r IH]; simpl; auto. rewrite pcontent_eqb_refl, IH. reflexivity. Qed.
+
+Theorem spec_pool_model : forall blocks sched,
+  seal_steps blocks <= length (filter is_seal sched) ->
+  let s := write_blocks blocks sched in
+  case_agrees (CPool blocks sched (p_out s)) = true /\ case_spec_ok (CPool blocks sched (p_out s)) = true.
+Proof.
+  intros blocks sched H s. destruct (block_bytes_private_full blocks sched) as (_ & B & C). fold s in B, C.
+  simpl. fold s. rewrite (C H). rewrite (B (C H)). simpl. split; apply pcontent_list_eqb_refl.
 Qed.
